@@ -1619,6 +1619,11 @@ type rreaddir struct {
 // decode implements encoder.decode.
 func (r *rreaddir) decode(b *buffer) {
 	r.Count = b.Read32()
+	if r.Count != uint32(len(r.payload)) {
+		// The count must describe the payload that follows it, as for
+		// Rread and Twrite.
+		b.markOverrun()
+	}
 	entriesBuf := buffer{data: r.payload}
 	r.Entries = r.Entries[:0]
 	for {
